@@ -27,6 +27,12 @@ CONSTANTS Mods,        \* module names
           Ops,         \* user actions offered at the top level
           CbOps,       \* user actions offered inside callbacks
           EvalVals,    \* values on_eval / on_start may return (subset of BOOLEAN)
+          Prios,       \* subscription priorities offered ("L", "N", "H")
+          BatchSizes,  \* values offered to m_mod_set_batch_size
+          UnstashNs,   \* values offered to m_mod_unstash
+          HandlerIds,  \* handlers offered to m_mod_become
+          Targets,     \* modules on which subscribe / batch / stash / become / state setters are offered in this configuration
+          AutoVals,    \* auto-free flag values offered to the send calls
           Senders,     \* modules that issue tell / publish / broadcast / pill in this configuration
           QuitCodes,   \* codes passed to m_ctx_quit
           Setup        \* "" = start from nothing; otherwise the name of a canned set-up the driver performs first (see InitOf)
@@ -41,7 +47,7 @@ SysTopics == {"CTX_STARTED", "CTX_STOPPED", "MOD_STARTED", "MOD_STOPPED"}
 \* subscription pattern p matches topic t (literal equality, or the one regular expression "t." matching every user topic)
 Matches(p, t) == p = t \/ (p = "t." /\ t \in Topics)
 
-Fr(k, m, a, b) == [k |-> k, m |-> m, a |-> a, b |-> b, ev |-> <<>>]
+Fr(k, m, a, b) == [k |-> k, m |-> m, a |-> a, b |-> b, ev |-> <<>>, h |-> 0, sm |-> {}]
 Push(s, f) == [s EXCEPT !.stack = <<f>> \o s.stack]
 Pop(s) == [s EXCEPT !.stack = Tail(s.stack)]
 Top(s) == Head(s.stack)
@@ -52,7 +58,9 @@ Active(s, m) == s.mod[m].st \in {"running", "paused"}
 SeqOf(s, P(_)) == SelectSeq(Order, P)
 RegSeq(s) == SelectSeq(Order, LAMBDA m : m \in Registered(s))
 
-Mod0 == [st |-> "none", reg |-> FALSE, old |-> FALSE, pipe |-> <<>>, subs |-> {}]     \* old: object of a released context
+\* old: object of a released context; subs: set of [pat, pr] (priority "L" | "N" | "H"), one per pattern;
+\* bq/blen: events held back by batching and the configured batch size; stash; hs: handlers installed with become (top first)
+Mod0 == [st |-> "none", reg |-> FALSE, old |-> FALSE, pipe |-> <<>>, subs |-> {}, bq |-> <<>>, blen |-> 0, stash |-> <<>>, hs |-> <<>>]
 NewMod == [Mod0 EXCEPT !.st = "idle", !.reg = TRUE]
 Init0 == [ctx |-> [st |-> "none", quit |-> FALSE, qcode |-> 0, fin |-> FALSE],
           run |-> 0,
@@ -72,7 +80,8 @@ Init == S = InitOf(Setup)
 
 (* ------------------------------ message copies and payloads ------------------------------ *)
 \* a message copy in a mailbox / handed to a handler
-Msg(p, from, topic, sys) == [p |-> p, from |-> from, topic |-> topic, sys |-> sys]
+\* pr: priority of the subscription that matched at send time ("N" for direct tell / broadcast); ud: that subscription's pattern ("" = none)
+Msg(p, from, topic, sys) == [p |-> p, from |-> from, topic |-> topic, sys |-> sys, pr |-> "N", ud |-> ""]
 
 \* one copy of payload p disappears (delivered-and-released, discarded, or never written)
 Release1(pay, p) ==
@@ -82,16 +91,23 @@ Release1(pay, p) ==
 RECURSIVE ReleaseAll(_, _)
 ReleaseAll(pay, ms) == IF ms = <<>> THEN pay ELSE ReleaseAll(Release1(pay, Head(ms).p), Tail(ms))
 
+SubPats(s, r) == {q.pat : q \in s.mod[r].subs}
+\* fetch_sub(): the literal subscription if there is one, else the (single) matching regular expression
+SubFor(s, r, topic) == IF topic \in SubPats(s, r) THEN CHOOSE q \in s.mod[r].subs : q.pat = topic
+                       ELSE CHOOSE q \in s.mod[r].subs : Matches(q.pat, topic)
+Subscribers(s, topic) == SelectSeq(Order, LAMBDA r : Active(s, r) /\ \E q \in s.mod[r].subs : Matches(q.pat, topic))
 \* append a copy to r's mailbox if there is room (a full pipe drops the copy)
 RECURSIVE Deliver(_, _, _)
-Deliver(s, rs, msg) ==      \* rs: sequence of recipients
+Deliver(s, rs, msg) ==      \* rs: sequence of recipients; a message with a topic is stamped with each recipient's matching subscription
     IF rs = <<>> THEN s
-    ELSE LET r == Head(rs) IN
+    ELSE LET r == Head(rs)
+             m1 == IF msg.topic \in {"", "PILL"} THEN msg
+                   ELSE LET q == SubFor(s, r, msg.topic) IN [msg EXCEPT !.pr = q.pr, !.ud = q.pat]
+         IN
          IF Len(s.mod[r].pipe) < Cap
-           THEN Deliver([s EXCEPT !.mod[r].pipe = Append(s.mod[r].pipe, msg)], Tail(rs), msg)
+           THEN Deliver([s EXCEPT !.mod[r].pipe = Append(s.mod[r].pipe, m1)], Tail(rs), msg)
            ELSE Deliver([s EXCEPT !.pay = Release1(s.pay, msg.p)], Tail(rs), msg)
 
-Subscribers(s, topic) == SelectSeq(Order, LAMBDA r : Active(s, r) /\ \E q \in s.mod[r].subs : Matches(q, topic))
 AllActive(s) == SelectSeq(Order, LAMBDA r : Active(s, r))
 
 \* library-generated notification (never has a payload)
@@ -109,14 +125,28 @@ MinFree(s) == CHOOSE p \in FreePay(s) : \A q \in FreePay(s) : p <= q
 (* ------------------------------ the library's continuation machine ------------------------------ *)
 HasHook(m, h) == h \in Hooks[m]
 \* .b of a callback frame: was the module RUNNING when the callback was entered (monitor C01: handlers only for RUNNING modules)
-CbFrame(s, m, kind, evs) == [k |-> "cb", m |-> m, a |-> kind, b |-> IF s.mod[m].st = "running" THEN 1 ELSE 0, ev |-> evs]
+CbFrame(s, m, kind, evs) == [k |-> "cb", m |-> m, a |-> kind, b |-> IF s.mod[m].st = "running" THEN 1 ELSE 0, ev |-> evs, h |-> 0, sm |-> {}]
+\* a handler invocation goes to the most recently installed handler (0 = the registration-time one); evs are released afterwards
+Handler(s, m) == IF s.mod[m].hs = <<>> THEN 0 ELSE Head(s.mod[m].hs)
+Invoke(s, m, evs) == [Push(Push(s, [Fr("evt2", m, 0, 0) EXCEPT !.ev = evs]),
+                           [k |-> "cb", m |-> m, a |-> "evt", b |-> IF s.mod[m].st = "running" THEN 1 ELSE 0, ev |-> evs, h |-> Handler(s, m), sm |-> {}])
+                      EXCEPT !.cur = m]
+\* push_evt(): the event joins the module's batch queue; the handler runs with the whole queue when the event is high priority,
+\* or normal priority and the queue has reached the batch size; a low priority event never triggers
+PushEvt(s, m, msg) ==
+    LET q == Append(s.mod[m].bq, msg)
+        s1 == [s EXCEPT !.mod[m].bq = q]
+    IN IF msg.pr = "L" THEN s1
+       ELSE IF msg.pr = "H" \/ Len(q) >= s.mod[m].blen THEN Invoke([s1 EXCEPT !.mod[m].bq = <<>>], m, q)
+       ELSE s1
 EnterCb(s, m, kind, evs) == [Push(s, CbFrame(s, m, kind, evs)) EXCEPT !.cur = m]
 
 \* the context object is released: module objects still referenced by the program belong to a context that is gone
 ReleaseCtx(s) == [s EXCEPT !.ctx.st = "none", !.mod = [x \in Mods |-> [s.mod[x] EXCEPT !.old = (s.mod[x].st # "none")]]]
 
 \* reset_module(): what stop() clears
-ResetMod(s, m) == [s EXCEPT !.mod[m].subs = {}]
+ResetMod(s, m) == [s EXCEPT !.pay = ReleaseAll(ReleaseAll(s.pay, s.mod[m].bq), s.mod[m].stash),
+                             !.mod[m].subs = {}, !.mod[m].bq = <<>>, !.mod[m].blen = 0, !.mod[m].stash = <<>>, !.mod[m].hs = <<>>]
 
 \* one step of library code for the frame on top of the stack (never called with a "cb" frame on top)
 Step(s) ==
@@ -191,7 +221,7 @@ Step(s) ==
                         s1 == [rest EXCEPT !.mod[x].pipe = Tail(r.mod[x].pipe)]
                     IN IF msg.topic = "PILL"
                          THEN Push([s1 EXCEPT !.pay = Release1(s1.pay, msg.p)], Fr("stop", x, TRUE, 0))
-                         ELSE EnterCb(Push(s1, [Fr("evt2", x, 0, 0) EXCEPT !.ev = <<msg>>]), x, "evt", <<msg>>)
+                         ELSE PushEvt(s1, x, msg)
       [] f.k = "evt2" ->         \* after the handler: the events of that invocation are released
             [r EXCEPT !.pay = ReleaseAll(r.pay, f.ev)]
       [] f.k = "lstop" ->        \* loop_stop(): IDLE, "loop stopped" notification, flush of every mailbox
@@ -211,8 +241,9 @@ Step(s) ==
                      s2 == IF k = 0 THEN s1 ELSE Push(s1, Fr("pillstop", x, 0, 0))
                  IN IF x \notin Registered(r) \/ ms = <<>> THEN rest
                     ELSE IF r.mod[x].st = "running"
+                      \* events still held back by batching were sent earlier: they go first, in the same invocation
                       THEN IF head = <<>> THEN s2
-                           ELSE EnterCb(Push(s2, [Fr("evt2", x, 0, 0) EXCEPT !.ev = head]), x, "evt", head)
+                           ELSE Invoke([s2 EXCEPT !.mod[x].bq = <<>>], x, r.mod[x].bq \o head)
                       ELSE [rest EXCEPT !.mod[x].pipe = <<>>, !.pay = ReleaseAll(rest.pay, ms)]
       [] f.k = "pillstop" ->
             IF r.mod[m].st = "running" THEN Push(r, Fr("stop", m, TRUE, 0)) ELSE r
@@ -291,20 +322,20 @@ ModRegister(m) ==
        ELSE Handle(m) = FALSE /\ Do([S EXCEPT !.mod[m] = NewMod, !.ret = 0])
 
 ModDeregister(m) ==
-    /\ Can("ModDeregister") /\ Handle(m)
+    /\ Can("ModDeregister") /\ m \in Targets /\ Handle(m)
     /\ IF ModRefused(m) \/ ~S.mod[m].reg THEN Refuse(NEG)            \* (not in the table: its deregistration is already in progress)
        ELSE IF "PERSIST" \in Flags[m] /\ S.ctx.st = "looping" THEN Refuse(NEG)
        ELSE Do(Push(S, Fr("dereg", m, TRUE, 0)))
 
 \* a state setter is refused on a zombie / foreign module and outside its source states
 StateRefused(m, from) == ModRefused(m) \/ S.mod[m].st \notin from
-ModStart(m)  == /\ Can("ModStart") /\ Handle(m)
+ModStart(m)  == /\ Can("ModStart") /\ m \in Targets /\ Handle(m)
                 /\ IF StateRefused(m, {"idle", "stopped"}) THEN Refuse(NEG) ELSE Do(Push(S, Fr("start", m, TRUE, 0)))
-ModResume(m) == /\ Can("ModResume") /\ Handle(m)
+ModResume(m) == /\ Can("ModResume") /\ m \in Targets /\ Handle(m)
                 /\ IF StateRefused(m, {"paused"}) THEN Refuse(NEG) ELSE Do(Push(S, Fr("start", m, FALSE, 0)))
-ModPause(m)  == /\ Can("ModPause") /\ Handle(m)
+ModPause(m)  == /\ Can("ModPause") /\ m \in Targets /\ Handle(m)
                 /\ IF StateRefused(m, {"running"}) THEN Refuse(NEG) ELSE Do(Push(S, Fr("stop", m, FALSE, 0)))
-ModStop(m)   == /\ Can("ModStop") /\ Handle(m)
+ModStop(m)   == /\ Can("ModStop") /\ m \in Targets /\ Handle(m)
                 /\ IF StateRefused(m, {"running", "paused"}) THEN Refuse(NEG) ELSE Do(Push(S, Fr("stop", m, TRUE, 0)))
 
 \* the program drops its reference to a zombie module
@@ -338,15 +369,49 @@ Pill(m, r) ==
     /\ IF PubRefused(m) \/ S.mod[r].st # "running" THEN Refuse(NEG)
        ELSE Do(Ret(Deliver(S, <<r>>, Msg(0, m, "PILL", TRUE)), 0))
 
-Subscribe(m, q) ==
-    /\ Can("Subscribe") /\ Handle(m) /\ q \in Pats
+\* a repeated subscription is updated in place (one subscription per pattern)
+Subscribe(m, q, pr) ==
+    /\ Can("Subscribe") /\ m \in Targets /\ Handle(m) /\ q \in Pats /\ pr \in Prios
     /\ IF SubRefused(m) THEN Refuse(NEG)
-       ELSE Do([S EXCEPT !.mod[m].subs = @ \cup {q}, !.ret = 0])
+       ELSE Do([S EXCEPT !.mod[m].subs = {x \in @ : x.pat # q} \cup {[pat |-> q, pr |-> pr]}, !.ret = 0])
 
 Unsubscribe(m, q) ==
-    /\ Can("Unsubscribe") /\ Handle(m) /\ q \in Pats
-    /\ IF SubRefused(m) \/ q \notin S.mod[m].subs THEN Refuse(NEG)
-       ELSE Do([S EXCEPT !.mod[m].subs = @ \ {q}, !.ret = 0])
+    /\ Can("Unsubscribe") /\ m \in Targets /\ Handle(m) /\ q \in Pats
+    /\ IF SubRefused(m) \/ q \notin SubPats(S, m) THEN Refuse(NEG)
+       ELSE Do([S EXCEPT !.mod[m].subs = {x \in @ : x.pat # q}, !.ret = 0])
+
+(* ------------------------------ batching, stash, become ------------------------------ *)
+SetBatchSize(m, n) ==
+    /\ Can("SetBatchSize") /\ m \in Targets /\ Handle(m) /\ n \in BatchSizes
+    /\ IF ModRefused(m) THEN Refuse(NEG) ELSE Do([S EXCEPT !.mod[m].blen = n, !.ret = 0])
+
+\* inside a handler of m: retain the i-th event of this invocation (not a high priority one) beyond the invocation
+Stash(m, i) ==
+    /\ Can("Stash") /\ InCb /\ Top(S).a = "evt" /\ Top(S).m = m /\ i \in 1..Len(Top(S).ev) /\ i \notin Top(S).sm
+    /\ LET e == Top(S).ev[i] IN
+       IF ModRefused(m) \/ S.mod[m].st # "running" \/ e.pr = "H" THEN Refuse(NEG)
+       ELSE Do([S EXCEPT !.mod[m].stash = Append(@, e), !.stack[1].sm = @ \cup {i},
+                         !.pay = IF e.p = 0 THEN @ ELSE [@ EXCEPT ![e.p].copies = @ + 1], !.ret = 0])
+
+\* hand the n oldest stashed events to the current handler, in one invocation; returns how many
+Unstash(m, n) ==
+    /\ Can("Unstash") /\ m \in Targets /\ Handle(m) /\ n \in UnstashNs
+    /\ IF ModRefused(m) \/ S.mod[m].st # "running" THEN Refuse(NEG)
+       ELSE LET k == IF n < Len(S.mod[m].stash) THEN n ELSE Len(S.mod[m].stash)
+                evs == SubSeq(S.mod[m].stash, 1, k)
+                s1 == [S EXCEPT !.mod[m].stash = SubSeq(@, k + 1, Len(@))]
+            IN IF k = 0 THEN Do(Ret(s1, 0))
+               ELSE Do(Invoke(Push(s1, Fr("retval", m, k, 0)), m, evs))
+
+Become(m, h) ==
+    /\ Can("Become") /\ m \in Targets /\ Handle(m) /\ h \in HandlerIds /\ Len(S.mod[m].hs) < 2
+    /\ IF ModRefused(m) \/ S.mod[m].st # "running" THEN Refuse(NEG)
+       ELSE Do([S EXCEPT !.mod[m].hs = <<h>> \o @, !.ret = 0])
+
+Unbecome(m) ==
+    /\ Can("Unbecome") /\ m \in Targets /\ Handle(m)
+    /\ IF ModRefused(m) \/ S.mod[m].st # "running" \/ S.mod[m].hs = <<>> THEN Refuse(NEG)
+       ELSE Do([S EXCEPT !.mod[m].hs = Tail(@), !.ret = 0])
 
 (* ------------------------------ leaving a callback ------------------------------ *)
 \* v: the callback's answer (on_eval / on_start: BOOLEAN; others: TRUE)
@@ -362,11 +427,16 @@ Next == \/ CtxRegister \/ CtxDeregister \/ CtxFinalize
         \/ \E m \in Mods : \/ ModRegister(m) \/ ModDeregister(m) \/ ModStart(m) \/ ModResume(m) \/ ModPause(m) \/ ModStop(m)
                            \/ DropRef(m) \/ PublishSys(m)
                            \/ \E r \in Mods : Pill(m, r)
-                           \/ \E p \in 1..MaxPay, auto \in BOOLEAN :
+                           \/ \E p \in 1..MaxPay, auto \in AutoVals :
                                  \/ Broadcast(m, p, auto)
                                  \/ \E r \in Mods : Tell(m, r, p, auto)
                                  \/ \E t \in Topics : Publish(m, t, p, auto)
-                           \/ \E q \in Pats : Subscribe(m, q) \/ Unsubscribe(m, q)
+                           \/ \E q \in Pats : Unsubscribe(m, q) \/ \E pr \in Prios : Subscribe(m, q, pr)
+                           \/ \E n \in BatchSizes : SetBatchSize(m, n)
+                           \/ \E i \in 1..3 : Stash(m, i)
+                           \/ \E n \in UnstashNs : Unstash(m, n)
+                           \/ \E h \in HandlerIds : Become(m, h)
+                           \/ Unbecome(m)
         \/ \E v \in BOOLEAN : CbReturn(v)
 Spec == Init /\ [][Next]_vars
 
@@ -389,15 +459,26 @@ C07_NoCtxNoModules == S.ctx.st = "none" => Registered(S) = {}
 C02_AutoFree == \A p \in 1..MaxPay : /\ (S.pay[p].st = "freed" => S.pay[p].auto /\ S.pay[p].copies = 0)
                                       /\ (S.pay[p].auto /\ S.pay[p].copies = 0 /\ S.pay[p].st # "unused" => S.pay[p].st = "freed")
 \* copies are where they can be found: mailboxes, or held by a running handler invocation
-CopiesOf(p) == LET inpipes == [m \in Mods |-> Cardinality({i \in 1..Len(S.mod[m].pipe) : S.mod[m].pipe[i].p = p})]
-                   instack == [i \in 1..Len(S.stack) |-> Cardinality({j \in 1..Len(S.stack[i].ev) : S.stack[i].k = "evt2" /\ S.stack[i].ev[j].p = p})]
-               IN <<inpipes, instack>>
+CountIn(seq, p) == Cardinality({i \in 1..Len(seq) : seq[i].p = p})
 RECURSIVE SumF(_, _)
 SumF(f, D) == IF D = {} THEN 0 ELSE LET x == CHOOSE x \in D : TRUE IN f[x] + SumF(f, D \ {x})
 C02_CopyAccounting == \A p \in 1..MaxPay :
-                         S.pay[p].copies = SumF(CopiesOf(p)[1], Mods) + SumF(CopiesOf(p)[2], 1..Len(S.stack))
+     S.pay[p].copies = SumF([m \in Mods |-> CountIn(S.mod[m].pipe, p) + CountIn(S.mod[m].bq, p) + CountIn(S.mod[m].stash, p)], Mods)
+                       + SumF([i \in 1..Len(S.stack) |-> IF S.stack[i].k = "evt2" THEN CountIn(S.stack[i].ev, p) ELSE 0], 1..Len(S.stack))
 \* mailboxes exist only for RUNNING / PAUSED modules (stop and deregistration discard)
 C02_NoMailUnlessActive == \A m \in Mods : S.mod[m].pipe # <<>> => Active(S, m)
+\* C13/C16/C17: batch queue, stash and handler stack exist only between start and stop
+C13_ClearedOnStop == \A m \in Mods : S.mod[m].st \notin {"running", "paused"} =>
+                        (S.mod[m].bq = <<>> /\ S.mod[m].stash = <<>> /\ S.mod[m].hs = <<>>)
+\* C13: what waits in the batch queue at quiescence could not trigger an invocation: the newest non-low event (if any) arrived
+\* while the queue was below the batch size
+C13_HeldBackForAReason == Quiescent => \A m \in Mods :
+                             LET q == S.mod[m].bq IN
+                             (\A i \in 1..Len(q) : q[i].pr # "H") /\
+                             ((\E i \in 1..Len(q) : q[i].pr = "N") =>
+                                  LET j == CHOOSE i \in 1..Len(q) : q[i].pr = "N" /\ \A k \in (i+1)..Len(q) : q[k].pr # "N" IN TRUE)
+\* C16: high priority events are never stashed
+C16_NoHighStashed == \A m \in Mods : \A i \in 1..Len(S.mod[m].stash) : S.mod[m].stash[i].pr # "H"
 \* state constraint for the pub/sub configuration: keep the population of registered-but-never-started modules small
 PsConstraint == TRUE
 TypeOK == /\ S.ctx.st \in {"none", "idle", "looping"}
